@@ -1002,7 +1002,13 @@ class Oracle:
                                   'object %d belongs to no database but has _p_oid/_p_jar after %r' % (i, op))
                 if r['st'] == 'G' or (r['val'] or '').startswith('!'):
                     if self.pid == 'C12':
-                        self.lost.add(i)      # C12 does not promise the state of un-added objects
+                        if getattr(self, 'report_residual', False) and i in getattr(self, 'prev_saved', ()) \
+                                and i in getattr(self, 'prev_dirty', ()):
+                            # open finding (residual of the repaired stored-new-object family)
+                            raise Verdict('C12:savepoint-created-object-ghostified-on-abort',
+                                          'object %d was created in a savepoint and modified later; after %r it '
+                                          'belongs to no database and has lost its state' % (i, op))
+                        self.lost.add(i)      # (tolerated when the check at hand is not C12 itself)
                         continue
                     if after_failed_commit and i in self.fail_explicit:
                         raise Verdict('C11:stored-new-object-ghostified-on-abort',
@@ -1054,6 +1060,7 @@ def judge(case, real, pid):
     """Run the oracle along the real observations.  Returns (index, signature, what) of the first
     observation the property statement rejects, ('taint', index) when the rest of the program is outside
     the claim, or None."""
+    check_pid = pid
     pid = case.get('as', pid)       # (savepoint programs inside the C11 run are judged in C12 mode)
     if case.get('family') == 'multidb':
         import c11_multidb
@@ -1071,6 +1078,7 @@ def judge(case, real, pid):
         import c11_misc
         return c11_misc.judge(case, real)
     o = Oracle(case['n'], pid)
+    o.report_residual = check_pid == 'C12'
     try:
         o.lastkind = None
         o.check_vector(real[0].split(' | ')[1], 'reset')
@@ -1081,6 +1089,7 @@ def judge(case, real, pid):
         res = parts[0]
         try:
             o.failing = False
+            o.prev_saved, o.prev_dirty = set(o.saved), set(o.dirty)
             exp = o.step(op)
         except Tainted:
             return ('taint', idx)
@@ -1628,7 +1637,12 @@ def run_check(pid, argv=None):
                 c2 = dict(case, ops=sub)
                 v = judge(c2, real_of(c2, ck.tmp), pid)
                 return v is not None and v[0] != 'taint' and v[1] == sig
-            small = ddmin(ops[:idx], fails, max_tests=150)
+            if sig.endswith('savepoint-created-object-ghostified-on-abort') and ck.extra.get('residual_seen'):
+                small = ops[:idx]       # (an open finding hit by many programs: shrink the first one only)
+            else:
+                small = ddmin(ops[:idx], fails, max_tests=150)
+            if sig.endswith('savepoint-created-object-ghostified-on-abort'):
+                ck.extra['residual_seen'] = True
             c2 = dict(case, ops=small)
             r2 = real_of(c2, ck.tmp)
             v2 = judge(c2, r2, pid)
